@@ -8,6 +8,7 @@ Abstraction: `Ring.content r` (oldest first); spec = bounded FIFO `BQ` on `List 
 import Golib.Proof.C10Refine
 import Golib.Proof.C10SyncRefine
 import Golib.Proof.C10Large
+import Golib.Proof.C10Copy
 
 namespace Golib.C10
 
@@ -254,6 +255,67 @@ example :
     (mkSync 2 (2 ^ 32 - 1) [7, 8]).pushWait 9 (-1) [] 5 = some .blocks ∧
     (mkSync 2 (2 ^ 32 - 1) [7, 8]).popWait (-1) [] 5 = some (.done (mkSync 2 (2 ^ 32) [8], 7, true)) := by
   refine ⟨by decide +kernel, by decide +kernel, by decide +kernel⟩
+
+/-- A timed `PushWait` / `PopWait` that answers `false` has not pushed / popped, for every
+sequence of tick times and from every state; and a push / pop that succeeds on the very
+tick on which `maxWait` expires is reported as a success (the loop attempts the operation
+before it tests the expiry).  The extra `syncring-timed-wait` checks the same on the real
+timed forms by accounting for the elements. -/
+theorem c10_wait_false_unchanged (v w : Int) (ticks : List Int) (r r1 : SyncRing) (x : Int) :
+    (pushTicks v w ticks r = some (.done (r1, false)) → r1 = r) ∧
+    (popTicks w ticks r = some (.done (r1, x, false)) → r1 = r) ∧
+    (∀ now ts r2, r.push v = some (r2, true) → pushTicks v w (now :: ts) r = some (.done (r2, true))) ∧
+    (∀ now ts r2 y, r.pop = some (r2, y, true) → popTicks w (now :: ts) r = some (.done (r2, y, true))) :=
+  ⟨pushTicks_false v w ticks r r1, popTicks_false w ticks r r1 x,
+   fun now ts r2 h => pushTicks_success_on_expiry v w now ts r r2 h,
+   fun now ts r2 y h => popTicks_success_on_expiry w now ts r r2 y h⟩
+
+/-! ## Struct copies (`b := a`): shared backing arrays
+
+`Ring` and `SyncRing` are handed around by value; a copy shares the backing array until
+one of the two allocates (`Init` always; `Recap` when it succeeds, `PushWithExpand` when it
+expands).  In the heap-of-buffers model (`Model/C10Copy.lean`, tied by the `ringC` /
+`syncC` cases) an object's own operation is exactly `Ring.step` / `SyncRing.step` on the
+struct with its array read from the heap, so all the theorems above apply to every object
+for as long as nobody else writes into its buffer; the two theorems below say when that is
+guaranteed. -/
+
+/-- Frame: an operation on object `i` (written back in place or into a fresh buffer) does
+not change what any object `j` with a DIFFERENT buffer reads — objects that do not share a
+backing array are independent. -/
+theorem c10_copy_frame {σ β : Type} (getV : σ → List β) (setV : σ → List β → σ) (m : MS σ β)
+    (hwf : m.WF) (i j : Nat) (o' : σ) (alloc : Bool) (bi bj : Nat) (oi oj : σ)
+    (hi : m.objs[i]? = some (bi, oi)) (hj : m.objs[j]? = some (bj, oj)) (hij : i ≠ j)
+    (hb : bi ≠ bj) :
+    (m.store getV i o' alloc).load setV j = m.load setV j :=
+  load_store_other getV setV m hwf i j o' alloc bi bj oi oj hi hj hij hb
+
+/-- After `Init` (or any allocating operation) the object owns a buffer that NO other
+object refers to — it is independent of every copy made before, whatever the old and new
+capacities are — and it reads back the freshly initialised state. -/
+theorem c10_init_fresh {σ β : Type} (getV : σ → List β) (setV : σ → List β → σ) (m : MS σ β)
+    (hwf : m.WF) (i : Nat) (o' : σ) (bi : Nat) (oi : σ) (hi : m.objs[i]? = some (bi, oi))
+    (hgs : setV o' (getV o') = o') :
+    (m.store getV i o' true).load setV i = some o' ∧ (m.store getV i o' true).WF ∧
+    ∀ j bj oj, j ≠ i → (m.store getV i o' true).objs[j]? = some (bj, oj) → bj ≠ m.heap.length :=
+  store_alloc_fresh getV setV m hwf i o' bi oi hi hgs
+
+/-- Non-vacuity: `b := a; a.Init(4); a.Push(8); b.Pop()` on SyncRings — `b` still pops its
+own oldest element; without the re-allocation in `Init` it would see `a`'s write. -/
+example :
+    (do
+      let a ← SyncRing.init? 4
+      let (a1, _) ← a.push 1
+      let m : MS SyncRing Slot := { heap := [a1.values], objs := [(0, a1), (0, a1)] }  -- b := a
+      let a' ← SyncRing.init? 4
+      let m1 := m.store SyncRing.values 0 a' true                                      -- a.Init(4)
+      let x ← m1.load syncSetV 0
+      let (x1, _) ← x.push 8                                                           -- a.Push(8)
+      let m2 := m1.store SyncRing.values 0 x1 false
+      let b ← m2.load syncSetV 1
+      let (_, v, ok) ← b.pop                                                           -- b.Pop()
+      pure (v, ok)) = some ((1 : Int), true) := by
+  decide +kernel
 
 /-- From `NewSync(n)`: every history of a fresh SyncRing is a history of the bounded FIFO
 whose capacity is the least power of two ≥ max 2 n. -/
